@@ -49,6 +49,27 @@ def diff_names(op: Op, t: Dict[str, Any], cfg: Dict[str, Any]) -> List[str]:
     return names
 
 
+def probe_env(op: Op, cfg: Dict[str, Any], seed: int, env: str, draws: int = 2, gdraws: int = 2) -> Dict[str, Any]:
+    """probe() under an ambient-environment deviation: autograd disabled, or another default dtype"""
+    import contextlib
+
+    import torch
+
+    if env in ("no_grad", "inference_mode"):
+        ctx: Any = torch.no_grad() if env == "no_grad" else torch.inference_mode()
+        with ctx:
+            return probe(op, cfg, seed, draws=draws, gdraws=0)
+    if env.startswith("default_dtype="):
+        old = torch.get_default_dtype()
+        try:
+            torch.set_default_dtype(getattr(torch, env.split("=")[1]))
+            return probe(op, cfg, seed, draws=draws, gdraws=gdraws)
+        finally:
+            torch.set_default_dtype(old)
+    with contextlib.nullcontext():
+        return probe(op, cfg, seed, draws=draws, gdraws=gdraws)
+
+
 def probe(op: Op, cfg: Dict[str, Any], seed: int, draws: int = 2, gdraws: int = 2) -> Dict[str, Any]:
     """Returns {"skipped": reason} | {"unit_exc": exc} | {"draws": [...]}; every draw holds the
     forward scalar/residual, per-input backward scalars/residuals for each upstream-gradient
@@ -64,7 +85,13 @@ def probe(op: Op, cfg: Dict[str, Any], seed: int, draws: int = 2, gdraws: int = 
             return {"skipped": f"build:{type(e).__name__}"}
         diff = diff_names(op, t, cfg)
         tu, tr = _clone_inputs(t, diff), _clone_inputs(t, diff)
-        snap = {k: (v._version, v.detach().clone()) for k, v in tu.items()}
+        def _ver(v: Any) -> Any:
+            try:
+                return v._version
+            except RuntimeError:  # inference tensors do not track a version counter
+                return None
+
+        snap = {k: (_ver(v), v.detach().clone()) for k, v in tu.items()}
         k0 = 4242 + d
         try:
             torch.manual_seed(k0)
@@ -121,7 +148,7 @@ def probe(op: Op, cfg: Dict[str, Any], seed: int, draws: int = 2, gdraws: int = 
         mod = []
         for k, (ver, val) in snap.items():
             cur = tu[k]
-            if cur._version != ver or not torch.equal(cur.detach(), val):
+            if _ver(cur) != ver or not torch.equal(cur.detach(), val):
                 mod.append(k)
         rec["modified"] = mod
         out["draws"].append(rec)
